@@ -17,6 +17,7 @@ pub open spec fn plain_received(l0: Seq<Option<(PeerIdentity, CodecResult<Messag
     &&& forall|i: int| l0.len() <= i < l1.len() - 1 ==> skipped_item(#[trigger] l1[i])
     &&& !skipped_item(last)
     &&& r is Ok <==> message_item(last)
-    &&& r is Ok ==> r->Ok_0 == last->Some_0.1->Ok_0->Message_0
+    // the same frames: a ZmqMessage IS its frame sequence (returning a clone is returning the message)
+    &&& r is Ok ==> r->Ok_0.fr() == last->Some_0.1->Ok_0->Message_0.fr()
 }
 
